@@ -99,7 +99,7 @@ func verifyVariant(p *Program, con *Contract, choice []enumChoice) (res *FuncRes
 	c := NewCtx()
 	x := &Exec{eng: eng, c: c, mode: con.Ints, con: con, pkg: con.Pkg.Types, info: con.Pkg.TypesInfo, key: con.Key,
 		counters: map[string]int{}, boxed: map[types.Object]bool{}, placehold: map[string]Val{}, assumed: map[string]bool{}, abstract: map[string]bool{},
-		loopOrd: map[ast.Stmt]int{}, rangeFacts: map[int]bool{}, callCount: map[string]int{}, specs: map[string]*specInfo{}}
+		loopOrd: map[ast.Stmt]int{}, rangeFacts: map[int]bool{}, callCount: map[string]int{}, specs: map[string]*specInfo{}, globalInit: map[string]bool{}}
 	res = &FuncResult{Key: con.Key, Contract: con, Ctx: c, Exec: x}
 	var vparts []string
 	for _, ch := range choice {
@@ -195,6 +195,28 @@ func verifyVariant(p *Program, con *Contract, choice []enumChoice) (res *FuncRes
 			panic(err)
 		}
 		x.assume(st, x.evalClause(st, cl, nil))
+		// the enumerated expression is replaced by the literal wherever it occurs from now on
+		cl2, err := p.bindClauseTyped(con, rawClause{"requires", ch.Expr, con.Line}, con.Decl.Body.Lbrace+1, sig, false, "enum", false)
+		if err != nil {
+			panic(err)
+		}
+		savedInfo, savedClause := x.info, x.curClause
+		x.info, x.curClause = cl2.Info, cl2
+		x.noOblig++
+		ev := x.expr(st, cl2.Expr)
+		x.noOblig--
+		x.info, x.curClause = savedInfo, savedClause
+		if ev.T != nil && !ev.T.IsLit() {
+			var lit *Term
+			if ev.T.sort == SInt {
+				lit = c.Int(ch.Val)
+			} else if ev.T.sort.IsBV() {
+				lit = c.BV64(ev.T.sort.BVWidth(), ch.Val)
+			}
+			if lit != nil {
+				c.rewrite[ev.T.id] = lit
+			}
+		}
 	}
 	for _, rq := range con.Requires {
 		x.assume(st, x.evalClause(st, rq, nil))
